@@ -68,6 +68,8 @@ for _i, _c in enumerate(CLASSES):
     NAMED["c%d" % _i] = _c
 USER = [5, 6, 7, 8, 9, 10, 11]
 LEVELS = [("ERROR", 40), ("WARNING", 30), ("CRITICAL", 50), ("INFO", 20), (35, 35), ("DEBUG", 10), (0, 0)]
+# levels that exist only once `logger.level(name, no=…)` has registered them
+CUSTOM_LEVELS = [("VERIF33", 33), ("verif.audit", 27), ("Trace+", 7), ("NOTICE", 45)]
 
 PROTO = {
     (TypeError, "can't send non-None value to a just-started generator"): (3, 10),
@@ -137,8 +139,18 @@ def gen_cfg(rng, nested_calls=False):
                 out = ["r", rng.below(10)] if rng.chance(20) else ["e", rng.choice(USER), 700 + 10 * rng.below(5) + i]
                 calls.append({"form": rng.choice(["f", "w"]), "cfg": gen_cfg(rng), "out": out})
             onerr = {"calls": calls, "raise": [rng.choice(USER), 310 + rng.below(5)] if rng.chance(15) else None}
-    return {"exc": gen_exc_names(rng), "excl": exclude, "reraise": rng.chance(35), "level": list(level),
-            "default": rng.choice([0, 0, 1, 2, 7, 9]), "onerror": onerr}
+    cfg = {"exc": gen_exc_names(rng), "excl": exclude, "reraise": rng.chance(35), "level": list(level),
+           "default": rng.choice([0, 0, 1, 2, 7, 9]), "onerror": onerr}
+    if rng.chance(18):
+        # a custom level, registered before ("pre") or only after ("post") logger.catch(level=…) is called:
+        # the name is resolved when the record is produced, e.g. a decorator applied at import time
+        cfg["level"] = list(rng.choice(CUSTOM_LEVELS))
+        cfg["level_when"] = rng.choice(["pre", "post"])
+    if onerr != "n" and rng.chance(25):
+        # the callback is a callable OBJECT whose truth value is False (registry with __len__() == 0 /
+        # __bool__() False): it was passed, so it must be called
+        cfg["ofalsy"] = rng.choice(["len", "bool"])
+    return cfg
 
 
 def gen_action(rng, nstates, on_throw, kind, nexc):
@@ -247,6 +259,8 @@ def cfg_token(c, sep=":"):
             ot += "$%d.%d" % tuple(o["raise"])
     else:
         ot = "r%d.%d" % (o[0], o[1])
+    if c.get("ofalsy"):
+        ot = "F" + ot
     return sep.join([bits_of(c["exc"]), bits_of(c["excl"]), "1" if c["reraise"] else "0",
                      "%d" % c["level"][1], "%d" % c["default"], ot])
 
@@ -276,6 +290,8 @@ def line_of(sc):
 
 
 def res_token(r):
+    if r[0] == "X":
+        return "X(%s)" % r[1].replace(" ", "_").replace(",", ";")
     if r[0] in ("y", "s", "r"):
         return "%s%d" % (r[0], r[1])
     if r[0] == "e":
@@ -461,6 +477,7 @@ def new_logger(run):
                 capture=True, patchers=[], extra={})
     env = run.sc["env"]
     probes = []
+    register_levels(lg, run.sc, "pre")
 
     def sink(msg):
         if not run.live:
@@ -499,6 +516,57 @@ def new_logger(run):
             return pyval(out[1])
         probes.append(catcher_of(lg, p["cfg"], run)(raw))
     return lg
+
+
+class BuildError(Exception):
+    """logger.catch(**config) itself raised"""
+
+
+class FalsyLen:
+    """an error registry: callable, and empty (hence falsy) until something is recorded"""
+
+    def __init__(self, f):
+        self.f, self.seen = f, []
+
+    def __len__(self):
+        return 0
+
+    def __call__(self, e):
+        return self.f(e)
+
+
+class FalsyBool(FalsyLen):
+    __len__ = None
+
+    def __bool__(self):
+        return False
+
+
+def all_cfgs(sc):
+    out = []
+
+    def walk(c):
+        out.append(c)
+        if isinstance(c["onerror"], dict):
+            for k in c["onerror"]["calls"]:
+                walk(k["cfg"])
+    for c in sc["cfgs"]:
+        walk(c)
+    for p in sc["env"]["probes"]:
+        walk(p["cfg"])
+    return out
+
+
+def register_levels(lg, sc, when):
+    done = set()
+    for c in all_cfgs(sc):
+        if c.get("level_when") is not None and isinstance(c["level"][0], str):
+            name = c["level"][0]
+            first = min((k.get("level_when") for k in all_cfgs(sc) if k["level"][0] == name and k.get("level_when")),
+                        key=lambda w: 0 if w == "pre" else 1)
+            if first == when and name not in done:
+                done.add(name)
+                lg.level(name, no=c["level"][1])
 
 
 def catcher_of(lg, c, run):
@@ -544,11 +612,16 @@ def catcher_of(lg, c, run):
             run.trace.append(("O",) + run.canon(e))
             if o != "k":
                 raise run.obj(o[0], o[1])
+    if onerror is not None and c.get("ofalsy"):
+        onerror = (FalsyLen if c["ofalsy"] == "len" else FalsyBool)(onerror)
     kw = {"exception": class_param(c["exc"]), "level": c["level"][0], "reraise": c["reraise"], "onerror": onerror,
           "default": pyval(c["default"]), "message": "M%d" % c["level"][1]}
     if c["excl"] is not None or c["default"] % 2 == 0:
         kw["exclude"] = class_param(c["excl"])
-    return lg.catch(**kw)
+    try:
+        return lg.catch(**kw)
+    except Exception as e:  # noqa  - building a catcher must never fail
+        raise BuildError("%s: %s" % (type(e).__name__, e))
 
 
 def _outcome(run, f, *a, closing=False, agen=False):
@@ -611,13 +684,22 @@ def execute(sc, wrapped):
     kind = sc["kind"]
     body = make_body(sc, run)
     results, acts, tlens = [], [], []
-    lg = new_logger(run) if wrapped else None
+    try:
+        lg = new_logger(run) if wrapped else None
+    except BuildError as be:
+        return [("X", str(be))], [[]], [], None, [0]
+
+    def built():
+        """everything is decorated / every context manager exists: levels registered only now"""
+        if wrapped:
+            register_levels(lg, sc, "post")
     try:
         if kind == "fn":
             f = body
             if wrapped:
                 for c in sc["cfgs"]:
                     f = catcher_of(lg, c, run)(f)
+            built()
             results.append(_call_depth2(run, f))
             acts.append(run.actions[:])
             tlens.append(len(run.trace))
@@ -641,6 +723,7 @@ def execute(sc, wrapped):
                             with catchers[0]:
                                 return body()
                 return None
+            built()
             results.append(_call_depth2(run, _with_block))
             acts.append(run.actions[:])
             tlens.append(len(run.trace))
@@ -664,6 +747,7 @@ def execute(sc, wrapped):
                             async with catchers[0]:
                                 return body()
                 return None
+            built()
             co = _with_block()
             r = _drv_depth2(run, co, ["s", 0], "coro")
             results.append(("r", r[1]) if r[0] == "s" else r)
@@ -674,6 +758,7 @@ def execute(sc, wrapped):
             if wrapped:
                 for c in sc["cfgs"]:
                     f = catcher_of(lg, c, run)(f)
+            built()
             obj = f()
             for op in sc["ops"]:
                 del run.actions[:]
@@ -715,6 +800,8 @@ def execute(sc, wrapped):
             if not canary:
                 canary = ("canary", "result %s, %d record(s), %d onerror call(s)" % (res_token(cres), len(logs), len(seen)))
             del run.trace[n0:]
+    except BuildError as be:
+        return [("X", str(be))], [[]], run.trace, None, [0]
     finally:
         run.live = False
         run.finalising = True
@@ -829,6 +916,9 @@ def judge(sc, W, U):
     def toks(evs):
         return [ev_token(ev, strip) if ev[0] in ("L", "O", "P") else repr(ev) for ev in evs]
 
+    if rw and rw[0][0] == "X":
+        return [("logger.catch(**config) itself raised %s - building the decorator / context manager must not fail "
+                 "(a level name may be registered later, before the first record)" % rw[0][1], None)]
     if isinstance(canary, tuple):
         problems.append(("after the scenario, a fresh catch(onerror=cb)-decorated function raising on the same logger "
                          "gave %s; expected its default, %s record and exactly one onerror call (guard flag left "
@@ -950,6 +1040,11 @@ def classify(ctx, sc, W, U):
     kind = sc["kind"]
     ctx.stat("kind:" + kind)
     ctx.stat("nesting:%d" % len(sc["cfgs"]))
+    for c in all_cfgs(sc):
+        if c.get("level_when"):
+            ctx.stat("custom_level_registered:" + c["level_when"])
+        if c.get("ofalsy"):
+            ctx.stat("onerror_falsy_callable:" + c["ofalsy"])
     raised = any(a == "e" or isinstance(a, tuple) for acts in U[1] for a in acts)
     own = any(a == "e" for acts in U[1] for a in acts)
     if own:
